@@ -20,7 +20,7 @@ RULE = (
     "every source line of the statemachine package (sys.settrace) and at every yield point inside callbacks; a schedule is a list of (step, thread) "
     "pre-emptions, senders yield voluntarily between their sends. Enumerated completely (coverage.exhaustive): every single pre-emption at any line of the "
     "package and every pair of pre-emptions at lines of the dispatch code (engines/*.py, event.py, send) for 2 senders sending (1,1), (1,2), (2,1) "
-    "events and (1,1) with yielding listener callbacks [thorough: all pairs over every line for (1,1), plus (2,2) and nested sends]; Hypothesis draws schedules with <=4 pre-emptions for 2-4 senders, biased to steps inside the queue / "
+    "events (1,1) with yielding listener callbacks and (1,1) with a listener attached from inside a callback [thorough: all pairs over every line for (1,1), plus (2,2) and nested sends]; Hypothesis draws schedules with <=4 pre-emptions for 2-4 senders, biased to steps inside the queue / "
     "processing-loop code. ASYNCIO (coroutine callbacks): every callback awaits a gate; a controller releases waiting gates in a generated order "
     "once all runnable tasks are blocked; senders await the event directly or create the coroutine first and await it later; every gate order of the small configurations (2 tasks x 1 event, with deferred await / nested send; more in thorough) is enumerated, larger ones are drawn. History invariants: "
     "(a) begin/end markers of different events never interleave; (b) the multiset of processed events equals the multiset sent (incl. nested); "
@@ -36,7 +36,14 @@ ASSUMPTIONS = [
 
 
 # ------------------------------------------------------------------------------------------ machines
-def build_sync(cycle, nested, cb_points, sched, listener):
+class Extra:
+    """a listener attached from inside a callback while other senders are waiting"""
+
+    def on_enter_state(self):
+        pass
+
+
+def build_sync(cycle, nested, cb_points, sched, listener, attach=False):
     log = []
     nest = {tuple(x) for x in nested}
 
@@ -62,6 +69,9 @@ def build_sync(cycle, nested, cb_points, sched, listener):
 
     def on_tick(self, who, k):
         sched.point()
+        if attach and (who, k) == (0, 0):
+            self.add_listener(Extra())  # attaching a listener does not open the processing section to other senders
+            sched.point()
         if (who, k) in nest:
             r = self.send("tick", who=who, k=("n", k))
             if r is not None:
@@ -118,7 +128,7 @@ def run_threads(case, trace_names=False):
     sched = ThreadSched(len(senders), [tuple(x) for x in case.get("schedule", [])], trace_names=trace_names)
     with warnings.catch_warnings():
         warnings.simplefilter("ignore")
-        sm, log = build_sync(case.get("cycle", 1), case.get("nested", []), case.get("cb_points", 0), sched, case.get("listener", False))
+        sm, log = build_sync(case.get("cycle", 1), case.get("nested", []), case.get("cb_points", 0), sched, case.get("listener", False), case.get("attach", False))
     returned = {}
 
     def body(w):
@@ -257,7 +267,8 @@ def is_dispatch(name):
 
 
 def extra(tier, seed, shard, nshards):
-    configs = [{"senders": [1, 1]}, {"senders": [1, 2]}, {"senders": [2, 1]}, {"senders": [1, 1], "cb_points": 1, "listener": True}]
+    configs = [{"senders": [1, 1]}, {"senders": [1, 2]}, {"senders": [2, 1]}, {"senders": [1, 1], "cb_points": 1, "listener": True},
+               {"senders": [1, 1], "attach": True}]
     if tier == "thorough":
         configs += [{"senders": [2, 2]}, {"senders": [1, 2], "nested": [[0, 0]]}, {"senders": [2, 1], "nested": [[1, 0]], "cycle": 2}, {"senders": [1, 1], "cycle": 3, "nested": [[0, 0], [1, 0]]}]
     total = 0
@@ -367,7 +378,7 @@ def cases(draw, tier):
     senders = [draw(st.integers(1, 3 if n < 4 else 2)) for _ in range(n)]
     nested = [[w, k] for w in range(n) for k in range(senders[w]) if draw(st.integers(0, 9)) < 2]
     cfg = {"engine": "threads", "cycle": draw(st.integers(1, 3)), "senders": senders, "nested": nested, "cb_points": draw(st.integers(0, 2)),
-           "listener": draw(st.booleans())}
+           "listener": draw(st.booleans()), "attach": draw(st.integers(0, 3)) == 0}
     total, hot = hot_steps(repr(sorted(cfg.items())), cfg)
     sch = []
     for _ in range(draw(st.integers(1, 4))):
